@@ -70,7 +70,7 @@ ResolvedNonPre(reg) == {p \in DOMAIN reg : reg[p].cat # "pre" /\ reg[p].st = "R"
 (* imports (last one with the right final segment wins); the others are    *)
 (* module imports, searched after the root module, in order.               *)
 ResolveName(reg, scope, name) ==
-  LET isTy(i) == Has(reg, scope[i])
+  LET isTy(i) == i # 1 /\ Has(reg, scope[i])     \* scope[1] is the module itself: always a module (fix F21)
       tyHit == {i \in DOMAIN scope : isTy(i) /\ scope[i] # <<>> /\ Last(scope[i]) = name}
       modIdx == {i \in DOMAIN scope : ~isTy(i)}
       modHit == {i \in modIdx : Has(reg, Join(scope[i], name))}
